@@ -59,6 +59,11 @@ type rule struct {
 	Step      int    `json:"step,omitempty"`  // pipeline only
 	Param     string `json:"param,omitempty"` // resources mode: from-XR patch source spec.params.<Param>
 	Required  bool   `json:"required,omitempty"`
+	// DropParam (pipeline): the resource is no longer desired once the user has set spec.params.<DropParam>
+	// (never unset again, so a dropped name never comes back and "at most one object ever" stays meaningful).
+	DropParam string `json:"dropParam,omitempty"`
+	// DropRev2 (resources mode): revision 2 of the Composition no longer has this template.
+	DropRev2 bool `json:"dropRev2,omitempty"`
 }
 
 type scenario struct {
@@ -73,6 +78,7 @@ type scenario struct {
 type envStep struct {
 	Ready string `json:"ready,omitempty"` // provider marks the composed resource for this name ready
 	Param string `json:"param,omitempty"` // user sets spec.params.<Param>
+	Rev2  bool   `json:"rev2,omitempty"`  // the Composition is edited: revision 2 drops the DropRev2 templates
 }
 
 func genScenario() *rapid.Generator[scenario] {
@@ -94,11 +100,15 @@ func genScenario() *rapid.Generator[scenario] {
 				if rapid.IntRange(0, 4).Draw(t, "fixed") == 0 {
 					r.FixedName = fmt.Sprintf("fixed-%d", i)
 				}
+				if rapid.Bool().Draw(t, "drops") {
+					r.DropParam = fmt.Sprintf("p%d", rapid.IntRange(0, 2).Draw(t, "dropparam"))
+				}
 			} else {
 				if rapid.Bool().Draw(t, "haspatch") {
 					r.Param = fmt.Sprintf("p%d", rapid.IntRange(0, 2).Draw(t, "param"))
 					r.Required = rapid.Bool().Draw(t, "required")
 				}
+				r.DropRev2 = i > 0 && rapid.IntRange(0, 2).Draw(t, "droprev2") == 0
 			}
 			sc.Rules = append(sc.Rules, r)
 		}
@@ -112,15 +122,28 @@ func genScenario() *rapid.Generator[scenario] {
 }
 
 func genEnvSteps(sc scenario) *rapid.Generator[[]envStep] {
+	// Only steps that can matter for this scenario: readiness of its resources, the params its rules read
+	// (patch sources and drop switches), and the template-dropping Composition edit.
+	var menu []envStep
+	seen := map[string]bool{}
+	for _, r := range sc.Rules {
+		menu = append(menu, envStep{Ready: r.Name})
+		for _, p := range []string{r.Param, r.DropParam} {
+			if p != "" && !seen[p] {
+				seen[p] = true
+				menu = append(menu, envStep{Param: p}, envStep{Param: p})
+			}
+		}
+		if r.DropRev2 && !seen["rev2"] {
+			seen["rev2"] = true
+			menu = append(menu, envStep{Rev2: true}, envStep{Rev2: true})
+		}
+	}
 	return rapid.Custom(func(t *rapid.T) []envStep {
 		var out []envStep
 		n := rapid.IntRange(0, 3).Draw(t, "nenv")
 		for i := 0; i < n; i++ {
-			if sc.Pipeline || rapid.Bool().Draw(t, "readystep") {
-				out = append(out, envStep{Ready: sc.Rules[rapid.IntRange(0, len(sc.Rules)-1).Draw(t, "readyidx")].Name})
-			} else {
-				out = append(out, envStep{Param: fmt.Sprintf("p%d", rapid.IntRange(0, 2).Draw(t, "paramidx"))})
-			}
+			out = append(out, rapid.SampledFrom(menu).Draw(t, "envstep"))
 		}
 		return out
 	})
@@ -141,8 +164,12 @@ func (sc scenario) runner() composite.FunctionRunner {
 			d.Resources = map[string]*fnv1.Resource{}
 		}
 		obs := req.GetObserved().GetResources()
+		xrParams := req.GetObserved().GetComposite().GetResource().GetFields()["spec"].GetStructValue().GetFields()["params"].GetStructValue().GetFields()
 		for _, r := range sc.Rules {
 			if r.Step != step {
+				continue
+			}
+			if _, dropped := xrParams[r.DropParam]; dropped && r.DropParam != "" {
 				continue
 			}
 			o, exists := obs[r.Other]
@@ -182,7 +209,9 @@ func isReadyStruct(s *structpb.Struct) bool {
 	return st.GetFields()["ready"].GetBoolValue()
 }
 
-func (sc scenario) composition() *v1.Composition {
+func (sc scenario) composition() *v1.Composition { return sc.compositionRev(1) }
+
+func (sc scenario) compositionRev(rev int) *v1.Composition {
 	c := &v1.Composition{}
 	c.SetName("comp")
 	c.Spec.CompositeTypeRef = v1.TypeReference{APIVersion: "example.org/v1", Kind: "XThing"}
@@ -195,6 +224,9 @@ func (sc scenario) composition() *v1.Composition {
 	}
 	c.Spec.Mode = ptr.To(v1.CompositionModeResources)
 	for _, r := range sc.Rules {
+		if rev >= 2 && r.DropRev2 {
+			continue
+		}
 		base, _ := json.Marshal(map[string]any{"apiVersion": "example.org/v1", "kind": r.Kind, "spec": map[string]any{"forProvider": map[string]any{"v": r.Val}}})
 		ct := v1.ComposedTemplate{Name: ptr.To(r.Name), Base: runtime.RawExtension{Raw: base}}
 		if r.Param != "" {
@@ -220,6 +252,8 @@ type world struct {
 	xrUID string
 	// names ever created per desired resource name (I2)
 	created map[string]map[string]bool
+	rev2    bool
+	rec     *verifkit.Recorder
 	fail    func(format string, a ...any)
 }
 
@@ -245,6 +279,9 @@ func newWorld(sc scenario, fail func(string, ...any)) *world {
 func (w *world) monitor(v *verifsim.View, wr *verifsim.Write) {
 	if wr.DryRun || !wr.Changed {
 		return
+	}
+	if w.rec != nil && wr.Verb == "delete" && verifsim.Annotations(wr.Before)[annName] != "" {
+		w.rec.Label("composed-resource-garbage-collected")
 	}
 	if wr.Before == nil && wr.After != nil && verifsim.ControllerUID(wr.After) == w.xrUID {
 		if n := verifsim.Annotations(wr.After)[annName]; n != "" {
@@ -316,6 +353,15 @@ func (w *world) apply(st envStep) {
 			_ = unstructured.SetNestedField(u.Object, true, "status", "ready")
 			_ = unstructured.SetNestedSlice(u.Object, []any{map[string]any{"type": "Ready", "status": "True", "reason": "Available", "lastTransitionTime": "2024-01-01T00:00:00Z"}}, "status", "conditions")
 			_ = c.Status().Update(ctx, u)
+		}
+	case st.Rev2:
+		differs := false
+		for _, r := range w.sc.Rules {
+			differs = differs || r.DropRev2
+		}
+		if !w.sc.Pipeline && !w.rev2 && differs {
+			w.rev2 = true
+			w.env.InstallComposition(w.sc.compositionRev(2), 2)
 		}
 	case st.Param != "":
 		xr := verifenv.NewUnstructuredXR(w.env.XRGVK, xrName)
@@ -475,6 +521,7 @@ func TestVerifC01Sweep(t *testing.T) {
 		rec.Labelf("pipeline=%v", sc.Pipeline)
 		rec.Labelf("rules=%d", len(sc.Rules))
 		w := newWorld(sc, func(f string, a ...any) { t.Fatalf(f, a...) })
+		w.rec = rec
 		w.sweep(rec, "stage 0 (fresh XR)")
 		for i, env := range envs {
 			_, _ = w.reconcile(nil)
